@@ -78,7 +78,7 @@ class Sequence(Expression):
                 if i < len(self.expressions) - 1:
                     gen.writeln(f"if {all_ok}:")
                     with gen.block():
-                        gen.writeln(f"parse_trivia(state, {pairs_var})")
+                        gen.writeln(f"skip_trivia(state, {pairs_var})")
 
         # Sequence succeeds only if all parts matched
         gen.writeln(f"{matched_var} = {all_ok}")
